@@ -79,3 +79,60 @@ Proof.
     intros i t' Hi Ht'; destruct i as [|[|i]]; try lia; cbn in Ht'; inversion Ht'; subst t'; cbn; lia.
 Qed.
 Print Assumptions C01_wf_example.
+
+(* ---- nnchain (what `linkage` runs for complete, average, weighted, ward) ----
+   Under a strict weak order on the carrier and reducibility of the update
+   formula, nnchain_with on ANY well-formed input, from any prior state, in
+   both profiles: the nearest-neighbour chain always consists of distinct live
+   clusters, the inner loop stops within its fuel at a reciprocal pair, every
+   merge joins two distinct live clusters, and the result is a well-formed
+   dendrogram (or the sort's NaN panic). *)
+Require Import KV.Model.Chain KV.Proofs.ShapeCheck KV.Proofs.ChainIter KV.Proofs.ChainInstances
+  KV.Proofs.Criteria KV.Proofs.CriteriaRun.
+From Coq Require Import QArith.
+Local Close Scope Q_scope.
+
+Theorem C01_nnchain_reducible_wf : forall (T : Type) (K : kops T) (p : profile) (meth : method),
+  (forall a, k_ltb K a a = false) ->
+  (forall a b c, k_ltb K a b = true -> k_ltb K b c = true -> k_ltb K a c = true) ->
+  (forall a b c, k_ltb K a b = false -> k_ltb K b c = false -> k_ltb K a c = false) ->
+  (forall va vb md sa sb sx, size_ok meth sa sb sx ->
+     k_ltb K va md = false -> k_ltb K vb md = false ->
+     k_ltb K (k_upd K va vb md sa sb sx) va = false \/ k_ltb K (k_upd K va vb md sa sb sx) vb = false) ->
+  forall s d (m : list T) (n : N),
+  (n < two32)%N -> wf_shape n (N.of_nat (length m)) ->
+  (exists s' d' m', nnchain_with K p meth s d m n = Ok (s', d', m') /\ wf_dend (d_obs d') (d_steps d'))
+  \/ nnchain_with K p meth s d m n = Panic PNaN.
+Proof. exact nnchain_total_wf. Qed.
+Print Assumptions C01_nnchain_reducible_wf.
+
+Theorem C01_nnchain_complete_wf : forall (T : Type) (F : fops T) (p : profile),
+  (forall a, f_ltb F a a = false) ->
+  (forall a b c, f_ltb F a b = true -> f_ltb F b c = true -> f_ltb F a c = true) ->
+  (forall a b c, f_ltb F a b = false -> f_ltb F b c = false -> f_ltb F a c = false) ->
+  forall s d (m : list T) (n : N),
+  (n < two32)%N -> wf_shape n (N.of_nat (length m)) ->
+  (exists s' d' m', nnchain_with (kops_of F Complete) p Complete s d m n = Ok (s', d', m') /\ wf_dend (d_obs d') (d_steps d'))
+  \/ nnchain_with (kops_of F Complete) p Complete s d m n = Panic PNaN.
+Proof. exact nnchain_complete_total_wf. Qed.
+Print Assumptions C01_nnchain_complete_wf.
+
+Theorem C01_nnchain_single_wf : forall (T : Type) (F : fops T) (p : profile),
+  (forall a, f_ltb F a a = false) ->
+  (forall a b c, f_ltb F a b = true -> f_ltb F b c = true -> f_ltb F a c = true) ->
+  (forall a b c, f_ltb F a b = false -> f_ltb F b c = false -> f_ltb F a c = false) ->
+  forall s d (m : list T) (n : N),
+  (n < two32)%N -> wf_shape n (N.of_nat (length m)) ->
+  (exists s' d' m', nnchain_with (kops_of F Single) p Single s d m n = Ok (s', d', m') /\ wf_dend (d_obs d') (d_steps d'))
+  \/ nnchain_with (kops_of F Single) p Single s d m n = Panic PNaN.
+Proof. exact nnchain_single_total_wf. Qed.
+Print Assumptions C01_nnchain_single_wf.
+
+(* average / weighted / ward in exact rational arithmetic *)
+Theorem C01_nnchain_Q_wf : forall (p : profile) (rt : Q -> Q) (meth : method) s d (m : list Q) (n : N),
+  meth = Average \/ meth = Weighted \/ meth = Ward ->
+  (n < two32)%N -> wf_shape n (N.of_nat (length m)) ->
+  (exists s' d' m', nnchain_with (kops_of (QFr rt) meth) p meth s d m n = Ok (s', d', m') /\ wf_dend (d_obs d') (d_steps d'))
+  \/ nnchain_with (kops_of (QFr rt) meth) p meth s d m n = Panic PNaN.
+Proof. exact nnchain_Q_total_wf. Qed.
+Print Assumptions C01_nnchain_Q_wf.
